@@ -96,13 +96,16 @@ def open_view(case):
     else:
         off, sz = case['off'], case['sz']
         under = SubsectionIO(bio, off, sz)
+    if case.get('start'):
+        under.seek(case['start'])       # the file is not at position 0 when it is wrapped: the wrapper starts where the file is
     v = e.create_ctr_io(slot, under, case['ctr'])
     return v, bio, off, sz
 
 
 def model_line(case, ops):
     return (f'ctr {int(case["twl"])} {case["kind"]} {zhex(case.get("off", 0))} {zhex(case.get("sz", 0))} '
-            f'h:{case["key"]} {zhex(case["ctr"])} h:{case["base"]} ' + ' '.join(fc.op_line(o) for o in ops))
+            f'h:{case["key"]} {zhex(case["ctr"])} h:{case["base"]} ' +
+            ' '.join(fc.op_line(o) for o in ([['s', case['start'], 0]] if case.get('start') else []) + list(ops)))
 
 
 def gen_case(rng, writes, kinds=('plain', 'window')):
@@ -121,7 +124,8 @@ def gen_case(rng, writes, kinds=('plain', 'window')):
         base = base[:off + rng.randrange(0, sz)]
     nops = rng.randrange(1, 13)
     ops = []
-    pos = 0          # estimate of the position, to hit coincidences on purpose (a seek that does not move, a relative seek BY the position)
+    start = 0 if (short or sz == 0 or rng.random() < 0.8) else min(sz, rng.choice([1, 15, 16, 17, sz // 2, sz]))
+    pos = start          # estimate of the position, to hit coincidences on purpose (a seek that does not move, a relative seek BY the position)
     for _ in range(nops):
         r = rng.random()
         if ops and rng.random() < 0.12:
@@ -190,7 +194,7 @@ def gen_case(rng, writes, kinds=('plain', 'window')):
     else:
         ctr = rng.getrandbits(128) >> rng.choice([0, 1, 64])
         ctr = min(ctr, (1 << 128) - 1 - margin)
-    return dict(twl=twl, kind=kind, off=off, sz=sz, base=base.hex(), key=pyenv.rbytes(rng, 16).hex(), ctr=ctr, ops=ops)
+    return dict(start=start, twl=twl, kind=kind, off=off, sz=sz, base=base.hex(), key=pyenv.rbytes(rng, 16).hex(), ctr=ctr, ops=ops)
 
 
 def run_impl(v, ops):
